@@ -1,4 +1,5 @@
 SPECIFICATION ASpec
 CONSTANTS Walks <- WalksQ  MaxEdits = 1  MaxSlice = 5
 INVARIANT GeneratedValid
+INVARIANT RunWiseAgrees
 CHECK_DEADLOCK FALSE
